@@ -294,4 +294,51 @@ theorem foldl_inv (fixed always : Bool) (g : Graph) (plan : Name → Plan) (defs
     · exact hnd'.1 (h ▸ hk)
     · exact hdisj k (List.mem_cons_of_mem _ hk) h
 
+/-- tasks not in the (rest of the) order keep their record and their report -/
+theorem foldl_frame (fixed always : Bool) (g : Graph) (plan : Name → Plan) (order : List Name) (rs : RunSt) (t : Name)
+    (ht : t ∉ order) :
+    (order.foldl (runOne fixed always g plan) rs).s.rcd t = rs.s.rcd t ∧
+    (order.foldl (runOne fixed always g plan) rs).s.defs = rs.s.defs ∧
+    outOf (order.foldl (runOne fixed always g plan) rs) t = outOf rs t := by
+  induction order generalizing rs with
+  | nil => exact ⟨rfl, rfl, rfl⟩
+  | cons k ks ih =>
+    simp only [List.foldl_cons]
+    have hk : t ≠ k := fun h => ht (h ▸ List.mem_cons_self)
+    obtain ⟨o, hout, hframe, hdefs, _⟩ := runOne_shape fixed always g plan rs k
+    obtain ⟨i1, i2, i3⟩ := ih (runOne fixed always g plan rs k) (fun h => ht (List.mem_cons_of_mem _ h))
+    refine ⟨i1.trans (hframe t hk), i2.trans hdefs, i3.trans ?_⟩
+    unfold outOf
+    rw [hout, alookup_cons_ne t k o rs.out (Ne.symm hk)]
+
+theorem foldl_defs (fixed always : Bool) (g : Graph) (plan : Name → Plan) (order : List Name) (rs : RunSt) :
+    (order.foldl (runOne fixed always g plan) rs).s.defs = rs.s.defs := by
+  induction order generalizing rs with
+  | nil => rfl
+  | cons k ks ih =>
+    simp only [List.foldl_cons]
+    obtain ⟨_, _, _, hdefs, _⟩ := runOne_shape fixed always g plan rs k
+    exact (ih _).trans hdefs
+
+/-- in a whole run: a task without a record that has a file dependency is not reported up-to-date -/
+theorem runAll_forgotten (fixed always : Bool) (g : Graph) (plan : Name → Plan) (s : St) (order : List Name)
+    (hnd : order.Nodup) (t : Name) (ht : t ∈ order) (hr : s.rcd t = Rcd.empty) (hd : (s.defs t).deps ≠ []) :
+    ∃ o, outOf (runAll fixed always g plan s order) t = some o ∧ o ≠ .upToDate := by
+  obtain ⟨pre, post, hsplit⟩ := List.append_of_mem ht
+  subst hsplit
+  have hnd' := List.nodup_append.1 hnd
+  have htpre : t ∉ pre := fun h => hnd'.2.2 t h t List.mem_cons_self rfl
+  have htpost : t ∉ post := (List.nodup_cons.1 hnd'.2.1).1
+  unfold runAll
+  rw [List.foldl_append, List.foldl_cons]
+  obtain ⟨f1, f2, _⟩ := foldl_frame fixed always g plan pre ⟨s, [], false⟩ t htpre
+  have hne := runOne_forgotten fixed always g plan (pre.foldl (runOne fixed always g plan) ⟨s, [], false⟩) t
+    (f1.trans hr) (by rw [f2]; exact hd)
+  obtain ⟨o, hout, _, _, _⟩ := runOne_shape fixed always g plan (pre.foldl (runOne fixed always g plan) ⟨s, [], false⟩) t
+  obtain ⟨_, _, g3⟩ := foldl_frame fixed always g plan post
+    (runOne fixed always g plan (pre.foldl (runOne fixed always g plan) ⟨s, [], false⟩) t) t htpost
+  refine ⟨o, ?_, ?_⟩
+  · rw [g3]; unfold outOf; rw [hout]; simp [alookup]
+  · intro ho; subst ho; exact hne hout
+
 end DoitModel.Cmds
